@@ -142,7 +142,7 @@ class Renderer:
         for a in d.get("attrs", []):
             al = a.lower()
             stmt_ok = al in ("allocatable", "pointer", "target", "save", "volatile", "asynchronous",
-                             "value", "protected")
+                             "value", "protected", "contiguous")
             if al == "pointer" and any(e.get("points") for e in d["ents"]):
                 stmt_ok = False     # `=> null()` needs the pointer attribute on the declaration
             pl = place(al, can_before=al in ("save", "target", "volatile")) if stmt_ok else "decl"
